@@ -25,7 +25,7 @@ Theorem C11_keeps_lines_partial : forall size s,
     | _ :: _ => exists ls, o = unlines ls /\ NFlines ls
                   /\ content_lines ls = map (fun l => lstrip is_sp (rstrip is_sp l)) (split_on NL (cleaned size s))
     end.
-Proof. exact pre_parse_nf_lines. Qed.
+Proof. exact pre_parse_keeps_lines. Qed.
 Print Assumptions C11_keeps_lines_partial.
 
 (* non-vacuity: an over-indented, multi-dedent text with tabs and trailing spaces is in the alphabet *)
